@@ -1,7 +1,12 @@
 #!/bin/sh
 # tools/try_mutant.sh <patch.diff> <Cnn> [tier] : apply a seeded change to /repo, run the check, undo.
+# Holds build/repo.lock exclusively so that concurrently running checks never see the changed tree.
 patch="$1"; prop="$2"; tier="${3:-quick}"
+cd "$(dirname "$0")/.."
+mkdir -p build
+exec 9>build/repo.lock
+flock -x 9
 git -C /repo apply "$patch" || { echo "patch does not apply"; exit 3; }
-./check.py "$prop" --tier "$tier"; rc=$?
-git -C /repo checkout -- . 
+VERIF_REPO_LOCKED=1 ./check.py "$prop" --tier "$tier"; rc=$?
+git -C /repo checkout -- .
 echo "exit=$rc"
